@@ -131,7 +131,7 @@ def structure_oracle(ctx, name, ml, Auser, Acopy, rkind, max_levels, case, filt=
         if filt is not None and l == 0:
             # the finest level stores the user's matrix; the product is taken with its filtered copy
             from pyamg.util.utils import filter_matrix_rows
-            Af = sp.csr_array(Acopy.copy())
+            Af = sp.csr_array(Acopy.astype(np.result_type(Acopy.dtype, np.float64)))
             filter_matrix_rows(Af, filt[1], diagonal=True, lump=filt[0])
             Ad = Af.toarray()
         rap = Rd @ Ad @ Pd
